@@ -25,7 +25,9 @@ SITES = ["S1", "C18.exceed"]
 RULE = ("sequences of length 1-8 on the dyadic grid k/4 (|k|<=32) with forced ties, monotone runs and NaN slots; angle sets on a 22.5-degree "
         "grid shifted beyond +-360 with antipodal pairs, duplicates and dyadic rotations (non-multiples of 10 degrees); arrays with 1-2 extra "
         "dims stored in shuffled coordinate order; selections by coordinate label (repeats, absent labels); thresholds including exact index "
-        "values and the catch-all bin edges -inf / +inf (also repeated, which is refused); linear series, arrays, selections and proportion-exceeding inputs (data and thresholds) multiplied by 2**e, -40 <= e <= 40 and a few "
+        "values and the catch-all bin edges -inf / +inf (also repeated, which is refused), non-decreasing lists with a repeated finite value, and a plain "
+        "number (forced autosqueeze) on data with non-sampling dimensions of length 1 (leading / trailing) with the result dimensions checked; every "
+        "optional argument (is_angular, skipna, reduce_dims, preserve_dims) both omitted and written out at its documented default; linear series, arrays, selections and proportion-exceeding inputs (data and thresholds) multiplied by 2**e, -40 <= e <= 40 and a few "
         "exponents up to +-200 (exact in binary64), plus factors that are not powers of two from 1e-12 to 1e12, compared relative to the "
         "magnitude of the data with no absolute floor. A case is distinct by the hash of (function, inputs, options) and non-trivial when at least one output value is finite")
 ASSUMPTIONS = ["labels along the sampling dimension are unique integers (xarray .sel on a unique index)",
@@ -38,7 +40,11 @@ TRUSTED = ["hand model of xarray shift / sum(skipna) / max,min(skipna=False) / s
 EXPECT_COUNTS = ["known_corpus", "kernel_grid_points", "kernel:exceed:infinite", "grid45_sequences", "seq:angular", "seq:linear", "seq:with_nan",
                  "invariance", "rotation", "seq:int-dtype:", "array_oracle", "magnitude:2^", "magnitude:selections", "magnitude:proportion",
                  "magnitude:proportion:infinite-threshold", "ff_array", "ff_array:scaled", "ff_selections", "sector:ok", "prop:ok", "prop:scaled",
-                 "prop:infinite-threshold", "prop:spec"]
+                 "prop:infinite-threshold", "prop:spec", "prop:repeated-threshold", "prop:scalar-threshold", "prop:scalar-threshold:size1-dim",
+                 "prop:size1-dim", "prop:size1-dim:leading", "prop:scalar-vs-list", "prop:defaults:omitted", "prop:defaults:explicit",
+                 "magnitude:proportion:size1-dim", "magnitude:proportion:repeated-threshold", "magnitude:proportion:scalar-threshold",
+                 "magnitude:proportion:scalar-threshold:size1-dim", "magnitude:proportion:options:omitted", "magnitude:proportion:options:explicit",
+                 "ff_array:is_angular:omitted", "ff_array:is_angular:explicit", "sector:skipna:omitted", "sector:skipna:explicit", "sector:skipna-omitted:nan"]
 
 NAN = float("nan")
 INF = float("inf")
@@ -188,6 +194,18 @@ def seq_oracle(ctx, ff, vals, dtype=None):
         ctx.violation("flip_flop_index differs from (sum|dx| - (max-min))/(N-2) (NaN iff a NaN is present)", case, str(o_linear(vals)),
                       lin[1] if lin[0] != "ok" else float(lin[1]))
     if not finite:
+        # skipna OMITTED (documented default False): NaN; skipna=True: the sector of the directions that are present
+        ctx.count("sector:skipna-omitted:nan")
+        sec = core.call_impl(ff.encompassing_sector_size, da, [])
+        if sec[0] != "ok" or not np.isnan(float(sec[1])):
+            ctx.violation("encompassing_sector_size with skipna omitted (documented default False): a NaN direction gives NaN", case, "nan",
+                          sec[1] if sec[0] != "ok" else float(sec[1]))
+        present = [v for v in vals if not np.isnan(v)]
+        if present:
+            sec = core.call_impl(ff.encompassing_sector_size, da, [], skipna=True)
+            if sec[0] != "ok" or not core.close(float(sec[1]), o_sector(present), tol):
+                ctx.violation("encompassing_sector_size(skipna=True) differs from 360 - largest circular gap of the directions that are present",
+                              case, str(o_sector(present)), sec[1] if sec[0] != "ok" else float(sec[1]))
         return
     # unsigned / 8-bit integer storage on the directional path: recorded defect until repaired
     key = FINDING_INT if dtype in ("uint8", "uint16", "uint32", "uint64", "int8") else None
@@ -411,7 +429,7 @@ def magnitude_proportion(ctx, ff, rng):
     """flip_flop_index_proportion_exceeding (with and without selections) on several series of one small / large magnitude:
     the fraction of valid exact index values >= threshold"""
     n = rng.randint(3, 7)
-    m = rng.randint(2, 6)
+    m = rng.randint(1, 6)                     # a single station: a non-sampling dimension of length 1
     e = gen_exponent(rng)
     mixed = rng.random() < 0.25               # the stations do not share one magnitude
     rows0 = [gen_seq(rng, n, False, nan_p=0.1 if rng.random() < 0.2 else 0.0) for _ in range(m)]
@@ -421,6 +439,14 @@ def magnitude_proportion(ctx, ff, rng):
     da = xr.DataArray(np.array(rows, dtype=float), dims=["x", "t"], coords={"x": list(range(m)), "t": labels})
     if rng.random() < 0.5:
         da = da.transpose("t", "x")
+    # an extra dimension of length 1 (a single model), leading or trailing
+    one = rng.random() < 0.4
+    if one:
+        da = da.expand_dims(model=[7])
+        if rng.random() < 0.4:
+            da = da.transpose(..., "model")
+    if one or m == 1:
+        ctx.count("magnitude:proportion:size1-dim")
     sels = {"all": None}
     if rng.random() < 0.6:
         sels.update(gen_selections(rng, labels, bad_p=0.0))
@@ -434,20 +460,54 @@ def magnitude_proportion(ctx, ff, rng):
     if r < 0.5:
         thr = ([-INF] if r < 0.35 else []) + thr + ([INF] if r > 0.15 else [])
         ctx.count("magnitude:proportion:infinite-threshold")
+    # the argument forms of `thresholds`: a non-decreasing list with a repeated (finite) value -- the proportion for each
+    # threshold --, and a plain number (forced autosqueeze: only 'threshold' is squeezed out)
+    scalar = False
+    r = rng.random()
+    if r < 0.25:
+        j = rng.randrange(len(thr))
+        if thr[j] not in (INF, -INF):
+            thr = thr[:j + 1] + thr[j:]
+            ctx.count("magnitude:proportion:repeated-threshold")
+    elif r < 0.5:
+        thr = [rng.choice(thr)]
+        scalar = True
+        ctx.count("magnitude:proportion:scalar-threshold")
+        if one or m == 1:
+            ctx.count("magnitude:proportion:scalar-threshold:size1-dim")
     tf = [float(t) for t in thr]
+    targ = tf[0] if scalar else tf
     kw = {k: v for k, v in sels.items() if v is not None}
-    case = {"data": gens.da_repr(da), "sampling_dim": "t", "thresholds": tf, "selections": kw, "exponents_of_two": es}
-    res = core.call_impl(ff.flip_flop_index_proportion_exceeding, da, "t", tf, **kw)
+    # optional arguments omitted / explicit at the documented defaults / the length-1 dimension preserved (same values)
+    opt = {}
+    r = rng.random()
+    if r < 0.3:
+        opt = {"is_angular": False, "reduce_dims": None, "preserve_dims": None}
+    elif r < 0.5 and one:
+        opt = {"preserve_dims": ["model"]} if rng.random() < 0.5 else {"reduce_dims": ["x"]}
+    keep = ("model",) if ("preserve_dims" in opt and opt["preserve_dims"]) or ("reduce_dims" in opt and opt["reduce_dims"]) else ()
+    want_dims = keep + (() if scalar else ("threshold",))
+    case = {"data": gens.da_repr(da), "sampling_dim": "t", "thresholds": targ, "selections": kw, "exponents_of_two": es, "options": opt}
+    res = core.call_impl(ff.flip_flop_index_proportion_exceeding, da, "t", targ, **opt, **kw)
     ctx.case(("mag-prop", repr(case)))
     ctx.count("magnitude:proportion")
+    ctx.count("magnitude:proportion:options:" + ("explicit" if opt else "omitted"))
     if res[0] != "ok":
-        ctx.violation("flip_flop_index_proportion_exceeding raises", case, "values", res[1])
+        ctx.violation("flip_flop_index_proportion_exceeding raises (non-decreasing thresholds / a plain-number threshold, data may have "
+                      "dimensions of length 1)", case, "values", res[1])
         return
     from scores.processing import proportion_exceeding
     outs = {k: (res[1][k] if kw else res[1]) for k in sels if not (k == "all" and kw)}
-    if not kw:
+    for k, out in outs.items():
+        if tuple(out.dims) != want_dims:
+            ctx.violation("proportion exceeding: wrong result dimensions (a plain-number threshold removes only 'threshold'; a preserved "
+                          "dimension of length 1 stays)", dict(case, selection=k), list(want_dims), list(out.dims))
+            return
+    if scalar:
+        scalar_vs_list(ctx, ff, da, "t", tf[0], opt, kw, res[1], case)
+    if not kw and not keep:
         # the building block itself on the index values (a public function of scores.processing)
-        direct = core.call_impl(lambda: proportion_exceeding(ff.flip_flop_index(da, "t"), tf))
+        direct = core.call_impl(lambda: proportion_exceeding(ff.flip_flop_index(da, "t"), targ))
         if direct[0] != "ok":
             ctx.violation("proportion_exceeding raises on valid thresholds", case, "values", direct[1])
         else:
@@ -458,7 +518,7 @@ def magnitude_proportion(ctx, ff, rng):
         gs = []
         for j, (t, t_f) in enumerate(zip(thr, tf)):
             want = Fraction(sum(1 for q in valid if q >= t), len(valid)) if valid else NAN
-            g = float(out.isel(threshold=j).values.ravel()[0])
+            g = float((out if scalar else out.isel(threshold=j)).values.ravel()[0])
             gs.append(g)
             if not core.close(g, want):
                 ctx.violation("proportion exceeding differs from the fraction of valid indices >= threshold (small / large magnitude data; "
@@ -506,6 +566,10 @@ def seq_level(ctx, ff, vals, note):
     if not any(np.isinf(vals)):
         if i_lin[0] == "ok" and not core.close(float(i_lin[1]), s_lin):
             ctx.violation("flip_flop_index differs from (sum|dx| - (max-min))/(N-2) (NaN iff a NaN is present)", case, str(s_lin), float(i_lin[1]))
+        if any(np.isnan(vals)) and i_sec[0] == "ok":
+            ctx.count("sector:skipna-omitted:nan")
+            if not np.isnan(float(i_sec[1])):
+                ctx.violation("encompassing_sector_size with skipna omitted (documented default False): a NaN direction gives NaN", case, "nan", float(i_sec[1]))
         if finite and i_sec[0] == "ok":
             if not core.close(float(i_sec[1]), s_gap):
                 ctx.violation("encompassing_sector_size differs from 360 - largest circular gap", case, str(s_gap), float(i_sec[1]))
@@ -613,15 +677,19 @@ def array_level(ctx, ff, rng, i):
     desc = {"fn": "flip_flop_index", "data": gens.da_repr(da), "sampling_dim": sd, "is_angular": angular, "exponent_of_two": e}
     bad_dim = rng.random() < 0.05
     sdq = "zz" if bad_dim else sd
+    # is_angular OMITTED (documented default False) or EXPLICIT: the model always receives the documented value
+    akw = {"is_angular": angular} if (angular or rng.random() < 0.5) else {}
+    desc["keywords_passed"] = sorted(akw)
+    ctx.count("ff_array:is_angular:" + ("explicit" if akw else "omitted"))
     if rng.random() < 0.5:
-        impl = core.call_impl(ff.flip_flop_index, da, sdq, is_angular=angular)
+        impl = core.call_impl(ff.flip_flop_index, da, sdq, **akw)
         m = ctx.model("c18_ff", enc_list([enc_data(da, sd), enc_str(sdq), enc_bool(angular)]))
         ok, why = compare_scaled(impl, m, e)
         ctx.count("ff_array")
     else:
         sels = gen_selections(rng, labels)
         desc["selections"] = sels
-        impl = core.call_impl(ff.flip_flop_index, da, sdq, is_angular=angular, **sels)
+        impl = core.call_impl(ff.flip_flop_index, da, sdq, **akw, **sels)
         el, es = enc_sels(labels, sels)
         m = ctx.model("c18_ff_sel", enc_list([enc_data(da, sd), enc_str(sdq), enc_bool(angular), el, es]))
         ok, why = compare_scaled(impl, m, e, list(sels))
@@ -659,8 +727,11 @@ def sector_level(ctx, ff, rng, i):
         keep = keep + ["zz"]
     skipna = rng.random() < 0.5
     rng.shuffle(keep)
-    desc = {"fn": "encompassing_sector_size", "data": gens.da_repr(da), "dims": keep, "skipna": skipna}
-    impl = core.call_impl(ff.encompassing_sector_size, da, keep, skipna=skipna)
+    # skipna OMITTED (documented default False: a NaN gives NaN) or EXPLICIT
+    skw = {"skipna": skipna} if (skipna or rng.random() < 0.5) else {}
+    ctx.count("sector:skipna:" + ("explicit" if skw else "omitted"))
+    desc = {"fn": "encompassing_sector_size", "data": gens.da_repr(da), "dims": keep, "skipna": skipna, "keywords_passed": sorted(skw)}
+    impl = core.call_impl(ff.encompassing_sector_size, da, keep, **skw)
     m = ctx.model("c18_sector", enc_list([enc_data(da, sd), enc_list([enc_str(d) for d in keep]), enc_bool(skipna)]))
     ok, why = core.compare_result(impl, m)
     ctx.count("sector:" + ("ok" if impl[0] == "ok" else impl[1]) + (":skipna" if skipna else ""))
@@ -669,6 +740,34 @@ def sector_level(ctx, ff, rng, i):
         ctx.sample(desc)
     if not ok:
         ctx.tie_fail("encompassing_sector_size vs model: " + why, desc, str(impl[1])[:300], str(m)[:300])
+
+
+def drop_threshold(tree):
+    """model array with a 'threshold' dimension of length 1 -> the same array without it (what the forced autosqueeze of a
+    plain-number threshold does: ONLY that dimension goes, every other dimension of length 1 stays)"""
+    return [[p for p in tree[0] if core.dec_str(p[0]) != "threshold"], tree[1]]
+
+
+def scalar_vs_list(ctx, ff, da, sd, t, kw, sels, got, case):
+    """relation between public calls: the result for the plain number t is the result for [t] with the 'threshold'
+    dimension (and nothing else) squeezed out -- same remaining dimensions in the same order, same values"""
+    ref = core.call_impl(ff.flip_flop_index_proportion_exceeding, da, sd, [t], **kw, **sels)
+    ctx.count("prop:scalar-vs-list")
+    if ref[0] != "ok":
+        ctx.violation("proportion exceeding returns for the plain number t but raises for [t]", case, "a value", ref[1])
+        return
+    for name in (list(sels) if sels else [None]):
+        a = got[name] if name is not None else got
+        b = ref[1][name] if name is not None else ref[1]
+        want = tuple(d for d in b.dims if d != "threshold")
+        if tuple(a.dims) != want:
+            ctx.violation("proportion exceeding a plain-number threshold: the result must have the dimensions of the list-threshold result "
+                          "without 'threshold' (a data dimension of length 1 is kept)", dict(case, selection=name), list(want), list(a.dims))
+            return
+        if not np.array_equal(np.asarray(a.values, float), np.asarray(b.squeeze("threshold").values, float), equal_nan=True):
+            ctx.violation("proportion exceeding a plain-number threshold differs from the list-threshold result squeezed",
+                          dict(case, selection=name), str(b.squeeze("threshold").values), str(a.values))
+            return
 
 
 def prop_level(ctx, ff, rng, i):
@@ -693,22 +792,59 @@ def prop_level(ctx, ff, rng, i):
         if rng.random() < 0.06:
             thr = thr + [thr[-1]]
         ctx.count("prop:infinite-threshold")
-    if rng.random() < 0.05:
+    scalar = False
+    r = rng.random()
+    if r < 0.05:
         thr = list(reversed(thr)) + [thr[0] + pow2(e), thr[0]]
+    elif r < 0.2:
+        # a non-decreasing list in which a (finite) threshold is repeated: the proportion for EACH threshold
+        k = rng.randrange(len(thr))
+        if np.isfinite(thr[k]):
+            thr = thr[:k + 1] + thr[k:]
+            ctx.count("prop:repeated-threshold")
+    elif r < 0.42:
+        # a plain number: autosqueeze is forced, ONLY the 'threshold' dimension is squeezed out
+        thr = [rng.choice(thr)]
+        scalar = True
+        ctx.count("prop:scalar-threshold")
+    size1 = [d for d in others if da.sizes[d] == 1]
+    if size1:
+        ctx.count("prop:size1-dim")
+        if da.dims[0] in size1:
+            ctx.count("prop:size1-dim:leading")
+        if scalar:
+            ctx.count("prop:scalar-threshold:size1-dim")
     rd, pd = gens.rand_dimspec(rng, others, allow_bad=True)
     if rng.random() < 0.06:
         rd, pd = ([sd], None) if rng.random() < 0.5 else (None, [sd])
+    # every optional argument both OMITTED and EXPLICIT at its documented default (is_angular=False, reduce_dims=None,
+    # preserve_dims=None): the model always receives the documented value
     kw = {}
-    if rd is not None:
+    if rd is not None or rng.random() < 0.3:
         kw["reduce_dims"] = rd
-    if pd is not None:
+    if pd is not None or rng.random() < 0.3:
         kw["preserve_dims"] = pd
+    if angular or rng.random() < 0.5:
+        kw["is_angular"] = angular
+    ctx.count("prop:defaults:" + ("omitted" if len(kw) < 3 else "explicit"))
     sels = gen_selections(rng, labels) if rng.random() < 0.4 else {}
-    desc = {"fn": "flip_flop_index_proportion_exceeding", "data": gens.da_repr(da), "sampling_dim": sd, "thresholds": thr, "is_angular": angular,
-            "reduce_dims": rd, "preserve_dims": pd, "selections": sels, "exponent_of_two": e}
-    impl = core.call_impl(ff.flip_flop_index_proportion_exceeding, da, sd, thr, is_angular=angular, **kw, **sels)
+    thr_arg = thr[0] if scalar else thr
+    desc = {"fn": "flip_flop_index_proportion_exceeding", "data": gens.da_repr(da), "sampling_dim": sd, "thresholds": thr_arg, "is_angular": angular,
+            "reduce_dims": rd, "preserve_dims": pd, "selections": sels, "exponent_of_two": e, "keywords_passed": sorted(kw)}
+    impl = core.call_impl(ff.flip_flop_index_proportion_exceeding, da, sd, thr_arg, **kw, **sels)
     el, es = enc_sels(labels, sels)
     m = ctx.model("c18_prop_exc", enc_list([enc_data(da, sd), enc_str(sd), enc_nums(thr), enc_bool(angular), enc_dimspec(rd), enc_dimspec(pd), el, es]))
+    if scalar and not core.is_err(m):
+        m = [drop_threshold(t) for t in m]
+    # model-free: a non-decreasing threshold list without NaN (a repeated finite value included) / a plain number is inside
+    # the domain: with everything reduced and every selected label present the call must return
+    valid_thr = all(b - a >= 0 for a, b in zip(thr, thr[1:])) and not any(np.isnan(thr))
+    if (impl[0] != "ok" and valid_thr and base[0] == "ok" and rd is None and pd is None
+            and all(x in labels for lab in sels.values() for x in lab)):
+        ctx.violation("flip_flop_index_proportion_exceeding raises on thresholds that are non-decreasing (a repeated value / a plain number "
+                      "is valid; data may have dimensions of length 1)", desc, "the proportion for each threshold", impl[1])
+    if scalar and impl[0] == "ok":
+        scalar_vs_list(ctx, ff, da, sd, thr[0], kw, sels, impl[1], desc)
     if sels:
         ok, why = core.compare_dataset(impl, m, list(sels))
     else:
@@ -724,7 +860,11 @@ def prop_level(ctx, ff, rng, i):
         flat = [float(v) for v in np.asarray(base[1].values, float).ravel()]
         for k, t in enumerate(thr):
             spec = core.dec_num(ctx.model("c18_prop_spec", enc_list([enc_nums(flat), enc_num(t)])))
-            got = float(impl[1].isel(threshold=k).values.ravel()[0])
+            want_dims = () if scalar else ("threshold",)
+            if tuple(impl[1].dims) != want_dims:
+                ctx.violation("proportion exceeding with everything reduced: wrong result dimensions", desc, list(want_dims), list(impl[1].dims))
+                break
+            got = float((impl[1] if scalar else impl[1].isel(threshold=k)).values.ravel()[0])
             ctx.count("prop:spec")
             if not core.close(got, spec):
                 ctx.violation("proportion exceeding differs from the fraction of valid indices >= threshold",
